@@ -1,5 +1,5 @@
 """Layer B oracle families beyond the plain table oracle (each labelled bounded; never counted as proved)."""
-import random, json, copy, math, itertools, warnings
+import random, json, copy, math, itertools, warnings, re
 warnings.filterwarnings("ignore")
 from . import gen, oracle
 from .model import Model
@@ -43,6 +43,17 @@ def convergence_case(args):
         recipe = {"ops": ops}
     else:
         recipe = gen.random_system(rnd, max_nodes=7, n_sources=(1, 2), p_mux=0.3, p_table=0.2, p_phases=0.3)
+        if rnd.random() < 0.3:
+            # loads whose nominal value is far above what they draw in any phase (the steady state still has modest drops)
+            ph = next((op for op in recipe["ops"] if op["op"] == "set_sys_phases"), None)
+            if ph is None:
+                ph = {"op": "set_sys_phases", "phases": {"run": 1.0, "sleep": 9.0}}; recipe["ops"].append(ph)
+            for op in list(recipe["ops"]):
+                if op["op"] == "add_comp" and op["comp"]["kind"] in ("ILoad", "PLoad"):
+                    big = op["comp"]["kind"] == "ILoad"
+                    op["comp"]["args"]["ii" if big else "pwr"] = rnd.choice([20.0, 200.0])
+                    recipe["ops"] = [o for o in recipe["ops"] if not (o["op"] == "set_comp_phases" and o["name"] == op["comp"]["name"])]
+                    recipe["ops"].append({"op": "set_comp_phases", "name": op["comp"]["name"], "conf": {p: rnd.choice([0.002, 0.01]) for p in ph["phases"]}})
     kw = dict(vtol=rnd.choice([1e-6, 1e-4, 1e-9, 1e-2]), itol=rnd.choice([1e-6, 1e-4, 1e-9, 1e-2]), maxiter=rnd.choice([0, 1, 2, 5, 50, 10000]))
     out = {"hash": _hash([recipe, kw]), "failures": [], "nontrivial": True, "sample": None, "outcome": None}
     from sysloss.system import System
@@ -238,7 +249,8 @@ def phase_family(seed, n):
 def table_rows(df, cols=None):
     rows, _ = oracle.rows_by_key(df)
     keep = cols or [c for c in df.columns if c not in ("Component", "Phase")]
-    return {k: tuple((round(float(r[c]), 7) if (r[c] != "" and not isinstance(r[c], str)) else r[c]) for c in keep) for k, r in rows.items()}, keep
+    # raw values: two equivalent systems are compared with a relative tolerance, never after rounding
+    return {k: tuple((float(r[c]) if (r[c] != "" and not isinstance(r[c], str)) else r[c]) for c in keep) for k, r in rows.items()}, keep
 
 
 def order_case(args):
@@ -523,13 +535,17 @@ def roundtrip_case(args):
         except Exception as e:
             F("rt.structure", "structure comparison raised %s" % type(e).__name__)
         # a file written by a newer version is refused
-        doc = json.load(open(p)); doc["system"]["version"] = "99.0.0"; json.dump(doc, open(p, "w"))
-        try:
-            System.from_file(p); F("rt.version", "a file of version 99.0.0 was accepted")
-        except ValueError:
-            pass
-        except Exception as e:
-            F("rt.version", "a newer file raised %s instead of ValueError" % type(e).__name__)
+        import sysloss
+        cur = [int(x) for x in re.findall(r"[0-9]+", sysloss.__version__)[:3]] + [0, 0, 0]
+        doc0 = json.load(open(p))
+        for newer in ("99.0.0", "%d.%d.%d" % (cur[0], cur[1], cur[2] + 1), "%d.%d.0" % (cur[0], cur[1] + 1)):
+            doc = copy.deepcopy(doc0); doc["system"]["version"] = newer; json.dump(doc, open(p, "w"))
+            try:
+                System.from_file(p); F("rt.version", "a file written by the newer version %s (installed %s) was accepted" % (newer, sysloss.__version__))
+            except ValueError:
+                pass
+            except Exception as e:
+                F("rt.version", "a newer file raised %s instead of ValueError" % type(e).__name__)
     finally:
         try: os.unlink(p)
         except OSError: pass
@@ -552,7 +568,8 @@ def ctor_rejections():
     """(kind, args, why) that must be refused with ValueError"""
     R = []
     for e in (0.0, -0.5, 1.0001, 2.0): R.append(("Converter", {"vo": 5.0, "eff": e}, "efficiency %g" % e))
-    for bad in ([[0.8, 0.9, 0.0], [0.8, 0.9, 0.95]], [[0.8, 0.9, 1.2], [0.8, 0.9, 0.95]], [[0.8, -1.25, 0.9], [0.8, 0.9, 0.95]], [[0.8, -0.5, 0.9], [0.8, 0.9, 0.95]]):
+    for bad in ([[0.8, 0.9, 0.0], [0.8, 0.9, 0.95]], [[0.8, 0.9, 1.2], [0.8, 0.9, 0.95]], [[0.8, -1.25, 0.9], [0.8, 0.9, 0.95]], [[0.8, -0.5, 0.9], [0.8, 0.9, 0.95]],
+                [[0.8, 0.9, 0.95], [0.8, 1.25, 0.9]], [[0.8, 0.9, 0.95], [0.0, 0.8, 0.9]], [[0.8, 0.9, 0.95], [0.8, 0.9, -0.1]]):
         R.append(("Converter", {"vo": 5.0, "eff": _tbl("eff", bad)}, "tabulated efficiency outside (0,1]: %s" % bad[0]))
     R.append(("Converter", {"vo": 5.0, "eff": {"vi": [3.3], "io": [0.1, 0.5, 1.0], "eff": [[0.8, 1.5, 0.9]]}}, "1-D efficiency table > 1"))
     R.append(("Converter", {"vo": 5.0, "eff": {"vi": [3.3], "io": [0.1, 0.5, 1.0], "eff": [[0.8, -1.5, 0.9]]}}, "1-D efficiency table with negative entry of magnitude > 1"))
@@ -691,6 +708,19 @@ def interp_case(args):
             lo_, hi_ = oracle.cell_range_2d({"io": io, "vi": vs, key: zs}, key, x, y)
             got = f(x, y)
             if math.isnan(got) or got < lo_ - 1e-9 or got > hi_ + 1e-9: F("interp.cell", "value %r at (io=%g, vi=%g) outside the corner range [%g, %g] of its cell" % (got, x, y, lo_, hi_))
+    # another component with a different table of the same shape, queried alternately at the same points: tables are independent
+    if nv > 1:
+        tb2 = [[round(rnd.uniform(lo, hi), 5) for _ in io] for _ in vi]
+        try:
+            comp2 = gen.make_comp({"kind": kind, "name": "Y", "args": dict(extra, **{key: {"vi": vi, "io": io, key: tb2}})})
+            o2 = sorted(range(nv), key=lambda j: vi[j]); z2 = [tb2[j] for j in o2]
+            for a in range(nv):
+                for b in range(ni):
+                    g1 = f(io[b], vs[a]); g2 = float(comp2._ipr._interp(io[b], vs[a])); g1b = f(io[b], vs[a])
+                    if not (oracle.close(g1, zs[a][b], 1e-9, 1e-12) and oracle.close(g2, z2[a][b], 1e-9, 1e-12) and oracle.close(g1b, zs[a][b], 1e-9, 1e-12)):
+                        F("interp.independent", "two components with different tables queried at the same point (io=%g, vi=%g): %r / %r, tabulated %r / %r" % (io[b], vs[a], g1, g2, zs[a][b], z2[a][b]))
+        except ValueError:
+            pass
     # outside: clamped to the nearest edge value, never NaN
     for _ in range(8):
         x = rnd.choice([io[0] * 0.5, io[-1] * 2 + 1.0, rnd.uniform(io[0], io[-1])]); y = rnd.choice([vs[0] * 0.5, vs[-1] * 3, rnd.uniform(vs[0], vs[-1])])
@@ -1037,3 +1067,37 @@ def battlife_family(seed, n):
     return summarize(run_pool(battlife_case, [(seed, i) for i in range(n)]),
                      "random systems with/without phases, battery = any source, capacities below and above 100 Ah, random cutoffs, linear-sag battery model with recording callbacks; every depletion call is compared with an independent solve() of the system at the battery's present voltage / impedance in the cycling phase; log rows, times, restoration, non-source name",
                      "trees <= 6 components; runs of 3..26 depletion calls")
+
+
+
+# ============================================================================================================ C07: re-timed phases
+def retime_case(args):
+    seed, idx = args
+    rnd = _rnd(seed, idx)
+    recipe = gen.random_system(rnd, max_nodes=6, n_sources=(1, 2), p_mux=0.3, p_phases=1.0)
+    out = {"hash": _hash(recipe), "failures": [], "nontrivial": True, "sample": None, "outcome": None}
+    s, _ = gen.build(recipe); m = Model.of(recipe)
+    oc, df = _solve_outcome(s, energy=True); out["outcome"] = oc
+    if oc != "table": return out
+    new = {k: v * rnd.choice([0.1, 3.0, 7.5]) for k, v in m.phases.items()}
+    s.set_sys_phases(new)
+    oc2, df2 = _solve_outcome(s, energy=True)
+    r2 = copy.deepcopy(recipe)
+    for op in r2["ops"]:
+        if op["op"] == "set_sys_phases": op["phases"] = new
+    s3, _ = gen.build(r2); m3 = Model.of(r2)
+    oc3, df3 = _solve_outcome(s3, energy=True)
+    def F(key, text): out["failures"].append({"key": key, "text": text, "props": ["C07"], "recipe": recipe, "new_phases": new})
+    if oc2 != oc3: F("retime.outcome", "re-timed system: %s, fresh system with the new durations: %s" % (oc2, oc3)); return out
+    if oc2 == "table":
+        d = frames_differ(df2, df3, ["Component", "Phase"])
+        if d: F("retime.values", "after set_sys_phases with other durations the table differs from a fresh system's: %s" % d)
+        for f in oracle.check_table(m3, df2, s, energy=True):
+            if "C07" in f["props"]: F("retime:" + f["key"], f["text"])
+    return out
+
+
+def retime_family(seed, n):
+    return summarize(run_pool(retime_case, [(seed, i) for i in range(n)]),
+                     "phased random systems: solve(energy=True), set_sys_phases with the same names and other durations, solve again; compared with a fresh system built with the new durations and with the aggregate oracle",
+                     "trees <= 6 components")
